@@ -16,7 +16,7 @@ SPEC = dict(
     assumptions=["the reference digit loop / odometer in harness/int2str.cpp (spot-checked against snprintf at start-up)",
                  "g++ 12 ASan/UBSan runtimes; UBSan vptr check disabled"],
     modes=[
-        dict(name="exh16", flavour="asan", cases=65536, exhaustive=True, eval_stat="values", timeout=900),
+        dict(name="exh16", flavour="asan", cases=65536, exhaustive=True, eval_stat="values", timeout=3600),
         dict(name="edge32", flavour="asan", cases={"quick": 141 * 40001, "thorough": 141 * 140001},
              args={"radius": {"quick": 20000, "thorough": 70000}}, eval_stat="values", timeout=1800),
         dict(name="rand32", flavour="asan", cases={"quick": 1500000, "thorough": 30000000}, eval_stat="values", timeout=1800),
